@@ -260,6 +260,7 @@ type advWorld struct {
 	legitWrites     map[string]bool
 	legitDone       bool
 	legitErr        string
+	legitInFlight   string // endpoint the legitimate controller is (about to be) inside
 	peersAllDone    bool
 	appDone         bool
 	capturedM5      []byte // encrypted-data value of the legitimate controller's M5
@@ -403,6 +404,17 @@ func (aw *advWorld) do(p *peerConn, op AdvOp) *advResult {
 	}
 	sc := aw.sc
 	w := aw.w
+	if sc.Legit && !aw.legitDone && op.Arg%3 == 0 {
+		// a third of the protected requests are timed to overlap with a request of the legitimate
+		// controller to the same endpoint (shared per-endpoint state is the place to look)
+		if path := map[string]string{"get-acc": "/accessories", "get-chars": "/characteristics", "put-val": "/characteristics", "put-ev": "/characteristics", "pairings-add": "/pairings", "pairings-remove": "/pairings", "pairings-list": "/pairings"}[op.Kind]; path != "" {
+			w.StepWhen(p.name, "wait until the legitimate controller is inside "+path, func() bool { return aw.legitInFlight == path || aw.legitDone })
+			if w.Sim.InTeardown() {
+				return r
+			}
+			w.Sim.Count("probe.peer_request_overlaps_legit_request_on_same_endpoint")
+		}
+	}
 	firstChar := "1.2"
 	if aw.on("C13") && op.Arg%2 == 0 && !p.dead {
 		// half of the hostile messages are sent in the protocol state they aim at
@@ -1293,6 +1305,10 @@ func runAdv(t *testing.T, sci interface{}) *Outcome {
 				aw.verifiedConns[c.ID] = true
 				aw.capturedPVM3 = lastBody(w.Sim.Conns[c.ID].Sent[0])
 				for i := 0; i < sc.LegitOps; i++ {
+					aw.legitInFlight = []string{"/characteristics", "/accessories", "/characteristics"}[i%3]
+					if i > 0 {
+						w.Step("legit", "next request")
+					}
 					switch i % 3 {
 					case 0:
 						v := (i/3)%2 == 0
@@ -1313,7 +1329,9 @@ func runAdv(t *testing.T, sci interface{}) *Outcome {
 						}
 					}
 				}
+				aw.legitInFlight = ""
 				if sc.LegitAdmin != "" {
+					aw.legitInFlight = "/pairings"
 					items := []ref.TLV{{Tag: ref.TagState, Val: []byte{1}}, {Tag: ref.TagMethod, Val: []byte{4}}, {Tag: ref.TagIdentifier, Val: []byte(aw.pairedID)}}
 					if sc.LegitAdmin == "rekey" {
 						items = []ref.TLV{{Tag: ref.TagState, Val: []byte{1}}, {Tag: ref.TagMethod, Val: []byte{3}}, {Tag: ref.TagIdentifier, Val: []byte(aw.pairedID)}, {Tag: ref.TagPublicKey, Val: aw.pairedKP2.Pub}, {Tag: ref.TagPermission, Val: []byte{0}}}
